@@ -220,6 +220,22 @@ func (pipeline *Pipeline) LoadSchemas(ctx context.Context) (ast.Schemas, error) 
 			return nil, err
 		}
 
+		for _, schema := range schemas {
+			if schema == nil {
+				continue
+			}
+
+			var malformed error
+			schema.Objects.Iterate(func(_ string, object ast.Object) {
+				if err := object.Type.CheckWellFormed(); err != nil && malformed == nil {
+					malformed = fmt.Errorf("%s.%s: %w", schema.Package, object.Name, err)
+				}
+			})
+			if malformed != nil {
+				return nil, malformed
+			}
+		}
+
 		allSchemas = append(allSchemas, schemas...)
 	}
 
